@@ -159,6 +159,13 @@ impl CodeCache {
         return None;
       }
       let (next_op, length, _cycles) = decode(code_slice);
+      if let crate::decoder::ops::Op::Invalid(_) = next_op {
+        if index > ip {
+          // Only complain about an undefined opcode once execution actually
+          // arrives at it: an earlier instruction may leave the block
+          break;
+        }
+      }
       index += length;
       block_ended = next_op.is_block_end();
       if ip < 0x4000 && index >= 0x4000 {
